@@ -9,7 +9,11 @@ from __future__ import annotations
 import random
 
 NAMES = ["a", "b", "c", "d", "x", "y", "version", '"q-r"']
-VALUES_OK = ["1", '"s"', "[ 1 2 ]", "{ k = 1; }", "x", "true", "./p.nix", "f a", "a.b", "-1", "1 # note", "/* c */ 2"]
+VALUES_OK = ["1", '"s"', "[ 1 2 ]", "{ k = 1; }", "x", "true", "./p.nix", "f a", "a.b", "-1"]
+# values that carry a comment (still exactly one expression): used by the enumerated / special streams only,
+# a one-line set holding such a value no longer parses (finding C05-line-comment-value-in-one-line-set) and
+# would poison every later step of a random history
+VALUES_COMMENTED = ["1 # note", "/* c */ 2"]
 VALUES_BAD = ["", "1 +", "{", "}", "a = 1;", "[ 1", '"unterminated', "# only a comment", '"x\\"', '"\\"', '"a\\\\"b"', "1 2"]
 MALFORMED_PATHS = ["", "a..b", 'a."b', "@", ".a", "a.", 'a"b"', "@@", 'a."b\\', "foo-bar", "a b", "1a"]
 
@@ -248,7 +252,7 @@ def enumerate_special():
             # every pair of operations as a history
             for i, op in enumerate(ops[:5]):
                 for op2 in ops[:5]:
-                    if op2 is not op and wname == "bare":
+                    if op2 is not op and wname == "bare" and name != "inline-set-comment-value":
                         yield text, [op, op2], {"class": "editable", "wrapper": wname, "special": name}
     for name, text in SPECIAL_DOCS:
         for op in [("set", "x", "7"), ("set", "zz", "7"), ("rm", "x"), ("set", "x.k", "7")]:
